@@ -36,12 +36,16 @@ Mirrored(o1, o2) ==
                          /\ (o1.iv.kind # "lower" => NegBits(o1.iv.lo, o2.iv.hi))
                          /\ (o1.iv.kind # "upper" => NegBits(o1.iv.hi, o2.iv.lo)))
 
+ZeroIn(d) == \E i \in DOMAIN d.rle : d.rle[i][1].n = 0
 \* ---------------------------------------------------------------- arithmetic mean (C01 / C06)
 ArithFailed(e, P) ==
     LET st == Moments(e.data)
         nu == st.n - 1 IN
     IF e.out.tag = "panic" THEN {P \o ".no_panic"}
     ELSE IF st.n < 2 THEN {c \in {P \o ".domain"} : ~(e.out.tag = "err" /\ e.out.variant = "TooFewSamples")}
+    \* every square overflows: the documented outcome is an error (non-finite statistics); an interval is judged below
+    ELSE IF ~OkIv(e) /\ "ovf" \in DOMAIN e
+    THEN {c \in {P \o ".domain"} : ~(e.out.tag = "err" /\ e.out.variant \in {"InvalidInputData", "FloatConversionError"})}
     ELSE IF ~OkIv(e) THEN {P \o ".domain"}
     ELSE IF ~CritKnown(nu) THEN {P \o ".generator_nu_not_in_table"}
     ELSE
@@ -61,6 +65,10 @@ ArithFailed(e, P) ==
 ArithClauses(e, P) ==
     LET st == Moments(e.data)  nu == st.n - 1 IN
     {P \o ".no_panic", P \o ".type." \o e.ty, P \o ".kind." \o e.conf.kind, P \o ".style." \o e.style}
+    \cup (IF "ovf" \in DOMAIN e THEN {P \o ".squares_overflow"} ELSE {})
+    \cup (IF "magnitude" \in DOMAIN e THEN {P \o ".magnitude." \o e.magnitude} ELSE {})
+    \cup (IF "beyond_f32_count" \in DOMAIN e THEN {P \o ".beyond_f32_count." \o e.style} ELSE {})
+    \cup (IF st.n >= 2 /\ OkIv(e) /\ ZeroIn(e.data) THEN {P \o ".zero_observation"} ELSE {})
     \cup (IF st.n >= 2 /\ OkIv(e) THEN
             {P \o ".level_echo", P \o ".shape", P \o ".sample_mean", P \o ".sample_variance", P \o ".sample_std_dev", P \o ".sample_count"}
             \cup (IF HasLoB(e) THEN {P \o ".bound_lo"} ELSE {}) \cup (IF HasHiB(e) THEN {P \o ".bound_hi"} ELSE {})
